@@ -10,12 +10,11 @@ func init() {
 	reg(&prop{
 		id: "C06", pkg: "c06",
 		rule: "rapid-generated (op, X, Y) over 10 operations; X, Y from finite/half-infinite/infinite/empty/singleton/small-window-at-huge-offset classes with bounds of 0..4000 bits in shapes 0, ±2^k, ±2^k±1, 1..10..0, random. Oracles: containment of sampled members (corners, 0, ±1, maximal elements, power-of-two neighbours, random), exhaustive containment + exact hull when |X|·|Y| <= 4096, exact hull on wide finite boxes from an independent reference (corner analysis; Hacker's-Delight min/max AND/OR per sign quadrant, itself cross-checked against brute force on every small case), ok==false iff both operands non-empty and some pair undefined, no aliasing. Non-trivial = both operands non-empty and (a bound exceeds 2^32 in magnitude, or the op is and/or/shift/quo on a range straddling zero or a power of two); distinct by (op, X, Y).",
-		assumptions:   []string{"math/big is correct", "shift counts above 2^17 are not evaluated concretely except for three fixed giant cases in the thorough tier"},
+		assumptions:   []string{"math/big is correct", "shift counts above 2^17 are not evaluated concretely; the big.Exp fallback of lib/interval for shift counts above 2^32 is not executed by any tier (one such case computes 2^(2^32): 0.5 GiB and more than 20 minutes; TestGiantShifts runs three of them only when VERIF_C06_GIANT=1)"},
 		minNontrivial: 1000,
 		quick:         tier{jobs: []job{{name: "interval", run: "^TestProp$", shards: 16, checks: 60000, timeout: 15 * time.Minute}}},
 		thorough: tier{jobs: []job{
 			{name: "interval", run: "^TestProp$", shards: 16, checks: 300000, timeout: 60 * time.Minute},
-			{name: "giant", run: "^TestGiantShifts$", shards: 1, checks: 1, timeout: 20 * time.Minute},
 		}},
 	})
 
